@@ -28,7 +28,7 @@ def step (d : D) (line : String) : D × String :=
   let g (k : String) : String := (kv ws k).getD ""
   match ws with
   | "cfg" :: _ =>
-    ({ d with cfg := ⟨g "replaceForgets" != "0", g "promoteForgets" != "0", g "commitRemoves" != "0", g "pendingNonceCheck" != "0"⟩ }, "ok")
+    ({ d with cfg := ⟨g "replaceForgets" != "0", g "promoteForgets" != "0", g "commitRemoves" != "0", g "pendingNonceCheck" != "0", g "demotesGaps" != "0"⟩ }, "ok")
   | "new" :: _ =>
     let l := (g "limit").toNat?.getD 1 * 10
     let p : Pool := { pendingLimit := l, waitingLimit := l }
